@@ -20,6 +20,11 @@ def prepare(cfg):
     return cfg
 
 
+def _conform(traces):
+    from harness import l1
+    return l1.conform(traces)
+
+
 def run_config(cfg):
     from harness import l2
     return l2.explore_config(prepare(cfg))
@@ -34,8 +39,11 @@ def run(pid, tier, seed, cfgs, assumptions, only=None, extra=None):
     order = list(range(len(cfgs)))
     random.Random(seed).shuffle(order)
     res = par.pmap('harness.l2run:run_config', [cfgs[i] for i in order])
+    wtraces = set()
     for i, r in zip(order, res):
         cfg = cfgs[i]
+        wtraces.update((a, tuple(tuple(x) for x in b))
+                       for a, b in r.get('wtraces', ()))
         rep.part(cfg['name'], evaluations=r['transitions'],
                  states=r['states'], transitions=r['transitions'],
                  outcomes=r['outcomes'].keys(), samples=r['samples'],
@@ -47,6 +55,20 @@ def run(pid, tier, seed, cfgs, assumptions, only=None, extra=None):
                           dict(harness=pid.lower(), config=cfg['name'],
                                history=v['history']),
                           signature=v['signature'])
+    if wtraces and not rep.violations:
+        # bind the one modelled component (the reference worker) to the code
+        wt = sorted(wtraces, key=repr)
+        chunks = [wt[k::par.NPROC] for k in range(par.NPROC)]
+        n = 0
+        for cn, bad in par.pmap('harness.l2run:_conform',
+                                [c for c in chunks if c]):
+            n += cn
+            for b in bad[:3]:
+                rep.violation('reference worker and real Worker disagree: '
+                              + b, dict(harness='l2-conformance'))
+        rep.part('worker-traces-replayed-on-real-Worker', validated=n,
+                 evaluations=n, outcomes=['agree'], samples=[list(wt[-1])],
+                 distinct_traces=len(wt))
     if extra is not None:
         extra(rep)
     rep.assume('workers behave as WorkerSpec (established for the real Worker '
